@@ -31,7 +31,8 @@ REQUIRED = ["histories", "rounds:redraw", "rounds:continue", "append_checked", "
             "p_decreased", "proved_carried_over", "fine_grained_histories", "histories_after_a_dry_run",
             "confirmed_earlier_and_risk_now_above_limit", "histories_starting_with_construction_time_bounds_in_the_tests",
             "histories_through_the_point_where_the_clean_total_equals_N_t", "planning_call_from_assumed_rates_between_rounds", "rounds:mixed",
-            "histories_in_which_a_contest_starts_in_a_later_round"]
+            "histories_in_which_a_contest_starts_in_a_later_round",
+            "continued_draws_handed_only_the_contests_that_grow"]
 ASSUMPTIONS = ["the 'measured risk is non-increasing' clause is asserted for tests configured with random_order=True (the "
                "factories' setting); for random_order=False the overall value is the last history entry, so only the "
                "append clause and the kept confirmation are asserted there", "polling is only generated without style (the library gives it the whole sample); without style the sample "
@@ -180,7 +181,15 @@ def run_variant(es, rounds, variant, rec):
     for sizes in rounds:
         sim.set_sizes(sizes)
         cont = variant == "continue" or (variant == "mixed" and len(hist) % 2 == 1)   # mixed: redraw, continue, redraw, ...
-        ok, idx = rec.guard(f"c10.call:consistent_sampling:{variant}", sim.draw, (list(prev) if (cont and prev is not None) else None))
+        only = None
+        if cont and prev is not None and variant == "mixed" and sim.use_style and hist:
+            # only the contests whose size grows are handed to the continued draw (the others are done for now): the
+            # cards already drawn stay in the sample whatever contests they carry
+            grown = [cid for cid in sizes if sizes[cid] > hist[-1]["sizes"].get(cid, 0)]
+            if grown and len(grown) < len(sizes):
+                only = set(grown)
+                rec.count("continued_draws_handed_only_the_contests_that_grow")
+        ok, idx = rec.guard(f"c10.call:consistent_sampling:{variant}", sim.draw, (list(prev) if (cont and prev is not None) else None), only)
         if not ok:
             return None, sim
         idx = [int(i) for i in idx]
